@@ -144,7 +144,7 @@ def run(rep, tier, seed, module="MC_C01", pid="C01"):
         rc = randcases.build(seed + 11, n)
         randcases.judge(rep, rc, "Trace_Load (oracle for %d random scripts whose round trip is then executed)" % n)
         rc = [dict(c, gens=GENS[tier], events=None, real=None) for c in rc if c["out"]["k"] == "ok" and c["inscope"]]
-        rres = realrun.pmap(judge_random, rc, chunk=20)
+        rres = realrun.pmap(judge_random, rc, chunk=10, min_items=40)
         for c, (st_, d_) in zip(rc, rres):
             if st_ == "bad":
                 rep.violation("random script: %s | script:\n%s" % (d_["reason"], c["text"]), {"text": c["text"], "reason": d_["reason"], "fingerprint": None})
